@@ -653,7 +653,7 @@ func ruleDirFirst(w *World, r *Report) {
 			if !ok || c.Call.StaticCallee() == nil {
 				return
 			}
-			switch c.Call.StaticCallee().Name() {
+			switch nm(c.Call.StaticCallee()) {
 			case "check", "parseExpression", "parseInfixExpression", "setLeafNodeParsers":
 				if !instrDominates(trunc, c) {
 					late = false
